@@ -28,15 +28,17 @@ func goodGen() Gen {
 func genProbe(t *rapid.T) Script {
 	g0, g1 := goodGen(), goodGen()
 	g0.Proc, g1.Proc = rapid.Bool().Draw(t, "proc0"), rapid.Bool().Draw(t, "proc1")
-	g1.NRecv = rapid.IntRange(1, 2).Draw(t, "nrecv1")
+	g1.NRecv = 1 + uni(t, "nrecv1", 2)
 	s := Script{Final: Act{K: "shutdown", N: 1}}
-	trigger := Act{K: rapid.SampledFrom([]string{"change", "sighup"}).Draw(t, "trigger")}
+	trigger := Act{K: oneOf(t, "trigger", []string{"change", "sighup"})}
 	stop := genAct(t, "stop", []string{"shutdown", "sigint", "sigterm", "cancel", "watcherr"})
-	comp := rapid.IntRange(0, 3).Draw(t, "comp")
-	switch rapid.SampledFrom([]string{
+	comp := uni(t, "comp", 4)
+	shape := oneOf(t, "shape", []string{
 		"sync-start-after-reload", "sync-shutdown-on-stop", "sync-shutdown-on-reload",
 		"async-in-start-after-reload", "async-in-shutdown-on-reload", "async-in-shutdown-on-stop",
-	}).Draw(t, "shape") {
+		"async-together-with-stop",
+	})
+	switch shape {
 	case "sync-start-after-reload":
 		g0.AtRunning = []Act{trigger}
 		g1.FatalSync, g1.FatalComp = "start", comp
@@ -56,13 +58,16 @@ func genProbe(t *rapid.T) Script {
 		s.Gens = []Gen{g0, g1}
 	case "async-in-shutdown-on-reload":
 		g0.AtRunning = []Act{trigger}
-		g0.PauseShut = comp + 0
+		g0.PauseShut = comp
 		g0.AtShut = []Act{{K: "fatal", N: -1}}
 		s.Gens = []Gen{g0, g1}
-	default: // async-in-shutdown-on-stop
+	case "async-in-shutdown-on-stop":
 		g0.AtRunning = []Act{stop}
 		g0.PauseShut = comp
 		g0.AtShut = []Act{{K: "fatal", N: -1}}
+		s.Gens = []Gen{g0}
+	default: // async-together-with-stop: no pause at all, the two stop reasons simply arrive together (schedule decides)
+		g0.AtRunning = []Act{stop, {K: "fatal", N: comp}}
 		s.Gens = []Gen{g0}
 	}
 	return s
@@ -94,5 +99,5 @@ func runProbe(s Script) (bool, string, *vt.Finding) {
 }
 
 func TestFatalErrorProbes(t *testing.T) {
-	vt.Run(t, cProbe, vt.N(6, 48), genProbe, runProbe)
+	vt.Run(t, cProbe, vt.N(8, 60), genProbe, runProbe)
 }
